@@ -107,10 +107,12 @@ def showErr (r : ExecRes) (adv : Adv) (valTok : String) : String :=
 def parseAdv (cps work val : String) : Adv × Nat :=
   let cpl := cps.toList.map parseCp
   let (act, ok, tick) := match work.splitOn ":" with
-    | [a, k] => (parseAct a, k == "ok", 0)
-    | [a, k, d] => (parseAct a, k == "ok", natD d)
-    | _ => (WorkAct.none, true, 0)
-  ({ cp := fun i => cpl.getD i .base, tick := tick, act := act, workOk := ok, val := parseVal val }, tick)
+    | [a, k] => (parseAct a, k, 0)
+    | [a, k, d] => (parseAct a, k, natD d)
+    | _ => (WorkAct.none, "ok", 0)
+  -- "ok" or "ok.<value kind>"; "ok.N" = the work function returns exactly None
+  ({ cp := fun i => cpl.getD i .base, tick := tick, act := act, workOk := ok.startsWith "ok",
+     resultNone := ok == "ok.N", val := parseVal val }, tick)
 
 def showExec (r : ExecRes) (adv : Adv) (valTok : String) (op : Nat) (reqL : List Nat) : String :=
   let own := match r.atWork with
@@ -166,6 +168,12 @@ def step (s : Sys) (toks : List String) : Sys × String :=
     match s.ctx? (natD o) with
     | none => withDump s "noop"
     | some c => withDump (s.setCtx { c with exempt := boolOf b }) "ok"
+  | ["advance", o] =>
+    match s.ctx? (natD o) with
+    | none => withDump s "noop"
+    | some c =>
+      let a := advance s.now c .base
+      withDump (s.setCtx a.1) (showBool a.2)
   | ["shutdown"] => withDump (shutdown s) "ok"
   | ["adv", d] => withDump { s with now := s.now + natD d } "ok"
   | ["deadlock"] =>
